@@ -159,6 +159,27 @@ def hostile_files():
         return b.source_unit(parts), []
     out.append(('every kind of top-level item and member', items))
 
+    def bodyless(b):
+        """declarations WITHOUT a body (interface, abstract contract, file level) with everything a detector reads from a function header:
+        named / unnamed parameters of every data location, return parameters, modifier invocations with arguments, every visibility"""
+        u = lambda: b.ty('Uint', 256)
+        hdr = lambda name, params, attrs, returns=(): b.function('Function', name, params, attrs, None, returns)
+        iface = [hdr('setName', [b.param(b.ty('String'), 'Memory', 'name_'), b.param(b.ty('DynamicBytes'), 'Calldata', 'data')], [b.fattr('visibility', 'external')]),
+                 hdr('sum', [b.param(b.index(u()), 'Memory', 'ids'), b.param(u(), None, 'k')], [b.fattr('visibility', 'external')], [b.param(b.index(u()), 'Memory', 'out')]),
+                 hdr('plain', [], [b.fattr('visibility', 'external'), b.fattr('mutability', 'payable')]),
+                 hdr('_under', [b.param(b.ty('String'), 'Memory', None)], [b.fattr('visibility', 'external'), b.fattr('mutability', 'view')], [b.param(b.ty('String'), 'Memory', None)])]
+        abstract = [b.state_var(u(), 'x'), b.state_var(b.ty('Address'), 'o'),
+                    hdr('_hook', [b.param(b.ty('DynamicBytes'), 'Memory', 'payload')], [b.fattr('visibility', 'internal'), b.fattr('virtual')]),
+                    hdr('guarded', [b.param(u(), None, 'v')], [b.fattr('visibility', 'public'), b.fattr('modifier', 'atLeast', [b.bin('Assign', b.var('x'), b.var('v'))]), b.fattr('virtual')]),
+                    hdr('kill', [], [b.fattr('visibility', 'external'), b.fattr('virtual')]),
+                    b.function('Modifier', 'later', [b.param(b.ty('String'), 'Memory', 'why')], [b.fattr('virtual')], None),
+                    fam.fn_def(b, [b.expr_stmt(b.call(b.var('selfdestruct'), [b.var('o')]))], name='after')]
+        parts = [b.pragma('solidity', '^0.8.4'), b.supart(hdr('freeDecl', [b.param(b.ty('String'), 'Memory', 'text')], [])),
+                 fam.contract_with(b, iface, kind='Interface', name='IApi'), fam.contract_with(b, abstract, kind='Abstract', name='Base'),
+                 fam.contract_with(b, [fam.fn_def(b, [b.expr_stmt(b.var('note'))], name='run', params=[b.param(b.ty('String'), 'Memory', 'note')])], name='Impl')]
+        return b.source_unit(parts), []
+    out.append(('declarations without a body', bodyless))
+
     def type_shapes(b):
         """state variables, struct fields, parameters and locals whose TYPE is written in every form the grammar has: elementary, user
         name, qualified name `A.B`, arrays (fixed / dynamic / nested), mappings (nested, user-typed keys), function types"""
